@@ -307,6 +307,26 @@ func catalogue() []geom.Geom {
 		geom.MultiPolygon{pAxis, shift(pAxis, 1000)},
 		geom.MultiPolygon{geom.Polygon{gen(0, 0)}},
 		&geom.Bounds{Min: geom.Point{X: 0, Y: 0}, Max: geom.Point{X: 100, Y: 120}},
+		// collections nested 40 and 100 deep
+		func() geom.Geom {
+			var g geom.Geom = geom.GeometryCollection{geom.Point{X: 3, Y: 4}, geom.LineString{{X: 500, Y: 0}, {X: 650, Y: 0}, {X: 650, Y: 130}}}
+			for i := 0; i < 40; i++ {
+				g = geom.GeometryCollection{g}
+			}
+			return g
+		}(),
+		func() geom.Geom {
+			var g geom.Geom = geom.GeometryCollection{geom.MultiPoint{{X: 0, Y: 500}, {X: 100, Y: 500}}}
+			for i := 0; i < 100; i++ {
+				g = geom.GeometryCollection{g}
+			}
+			return geom.GeometryCollection{geom.Point{X: -900, Y: -900}, g}
+		}(),
+		// flat boxes: the bounds of a vertical line, of a horizontal line and of a point
+		&geom.Bounds{Min: geom.Point{X: 100, Y: 0}, Max: geom.Point{X: 100, Y: 120}},
+		&geom.Bounds{Min: geom.Point{X: 0, Y: 120}, Max: geom.Point{X: 100, Y: 120}},
+		&geom.Bounds{Min: geom.Point{X: 300, Y: 300}, Max: geom.Point{X: 300, Y: 300}},
+		geom.GeometryCollection{&geom.Bounds{Min: geom.Point{X: 100, Y: 0}, Max: geom.Point{X: 100, Y: 120}}, geom.Point{X: 500, Y: 500}},
 		geom.GeometryCollection{geom.Point{X: 3, Y: 4}, geom.LineString{{X: 50, Y: 0}, {X: 150, Y: 0}, {X: 150, Y: 130}}, shift(pGen, 1000), geom.MultiPoint{{X: 0, Y: 500}, {X: 100, Y: 500}}, &geom.Bounds{Min: geom.Point{X: 0, Y: 700}, Max: geom.Point{X: 100, Y: 820}}},
 		geom.GeometryCollection{geom.GeometryCollection{geom.Point{X: 3, Y: 4}, geom.Point{X: 300, Y: 4}}, geom.Point{X: 600, Y: 4}},
 		geom.GeometryCollection{},
@@ -566,7 +586,7 @@ func main() {
 		return
 	}
 	rep = report.New("C15", tier, "model_checking")
-	rep.Rule = "E1: 31 base geometries of all eight types (axis-aligned and general-position rings, closed and unclosed, a ring visiting one vertex twice, sliver rings thinner than the tolerance, multi-geometries of 33..64 members, multi-geometries holding the same member twice, distinct members sharing one bounding box, nested collections, empty geometries) whose members are >= 90 apart, tol in {1e-3, 0.1}, and the same geometries shifted by (2e7,-3e7) with tol 1e-9 (below the float spacing there); for each every derived h: identity; all coordinates perturbed by +-tol/2 in 6 sign patterns (expected true); every permutation of members combined with perturbation (true); every start rotation of closed rings (true); all coordinates perturbed by 0.9 tol (true); every single coordinate displaced by 2*tol and by 1.2*tol, incl. the closing vertex of a closed ring on its own (false); every member deleted / duplicated at every position (false); every line / line member reversed (false); change of type with identical vertices (false); and, for containers, every such derivation applied to every member with the other members unchanged (nested to depth 2: rings permuted inside a multi-polygon member, members of a nested collection, ...). Every pair is evaluated in both directions (symmetry), and again twice with both operands cut from flat vertex buffers (same answers, buffers not written). Non-trivial = every derivation other than identity."
+	rep.Rule = "E1: 37 base geometries of all eight types (collections nested 40 and 100 deep; boxes also flat: the bounds of a vertical / horizontal line and of a point; axis-aligned and general-position rings, closed and unclosed, a ring visiting one vertex twice, sliver rings thinner than the tolerance, multi-geometries of 33..64 members, multi-geometries holding the same member twice, distinct members sharing one bounding box, nested collections, empty geometries) whose members are >= 90 apart, tol in {1e-3, 0.1}, and the same geometries shifted by (2e7,-3e7) with tol 1e-9 (below the float spacing there); for each every derived h: identity; all coordinates perturbed by +-tol/2 in 6 sign patterns (expected true); every permutation of members combined with perturbation (true); every start rotation of closed rings (true); all coordinates perturbed by 0.9 tol (true); every single coordinate displaced by 2*tol and by 1.2*tol, incl. the closing vertex of a closed ring on its own (false); every member deleted / duplicated at every position (false); every line / line member reversed (false); change of type with identical vertices (false); and, for containers, every such derivation applied to every member with the other members unchanged (nested to depth 2: rings permuted inside a multi-polygon member, members of a nested collection, ...). Every pair is evaluated in both directions (symmetry), and again twice with both operands cut from flat vertex buffers (same answers, buffers not written). Non-trivial = every derivation other than identity."
 	cat := catalogue()
 	if tier == "thorough" {
 		cat = append(cat, generated()...)
